@@ -3031,6 +3031,10 @@ func (l *channelLink) processRemoteAdds(fwdPkg *channeldb.FwdPkg) {
 	// settle/fail update.
 	unackedAdds := make([]*lnwire.UpdateAddHTLC, 0, len(fwdPkg.Adds))
 
+	// unackedIdxs holds, for each entry of unackedAdds, the index of the
+	// Add within the forwarding package.
+	unackedIdxs := make([]uint16, 0, len(fwdPkg.Adds))
+
 	for i, update := range fwdPkg.Adds {
 		// If this index is already found in the ack filter, the
 		// response to this forwarding decision has already been
@@ -3060,6 +3064,7 @@ func (l *channelLink) processRemoteAdds(fwdPkg *channeldb.FwdPkg) {
 
 			decodeReqs = append(decodeReqs, req)
 			unackedAdds = append(unackedAdds, msg)
+			unackedIdxs = append(unackedIdxs, uint16(i))
 		}
 	}
 
@@ -3083,7 +3088,7 @@ func (l *channelLink) processRemoteAdds(fwdPkg *channeldb.FwdPkg) {
 	var switchPackets []*htlcPacket
 
 	for i, update := range unackedAdds {
-		idx := uint16(i)
+		idx := unackedIdxs[i]
 		sourceRef := fwdPkg.SourceRef(idx)
 		add := *update
 
